@@ -1,4 +1,7 @@
 use core::any::Any;
+#[cfg(unimock_verif)]
+use crate::verif::sync::OnceCell;
+#[cfg(not(unimock_verif))]
 use once_cell::sync::OnceCell;
 
 use crate::alloc::Box;
